@@ -2,6 +2,7 @@
 from __future__ import annotations
 
 import ast
+import os
 import fnmatch
 import inspect
 import time
@@ -248,6 +249,12 @@ class Exec(Interp):
         load = _as_load(node.target)
         cur = self.eval(st, load)
         v = self.eval(st, node.value)
+        if isinstance(cur.kind, KSet) and isinstance(v.kind, KSet):
+            # s -= t / s &= t / s |= t update the set object in place (aliases see the change)
+            from . import lib
+            self.check_container_guard(st, cur, node, True)
+            lib.set_binop(self, st, node.op, cur, v, node, into=cur)
+            return
         self.assign(st, node.target, self.binop(st, node.op, cur, v, node), node)
 
     def exec_Delete(self, st, node):
@@ -431,6 +438,10 @@ class Exec(Interp):
                 pass
             return
         seq = self.as_sequence(st, itv, node)
+        if isinstance(itv.kind, KList):
+            self.frame(st).env["_seq"] = itv        # ghost name for the iterated list (usable in loop invariants)
+        elif spec is not None and any("_seq" in str(x) for x in spec.invariant) and isinstance(node.iter, ast.Subscript):
+            self.frame(st).env["_seq"] = self.eval(st, node.iter)      # a slice: the materialised copy
         if spec is None:
             raise Unsupported("loop without invariant at line %s" % node.lineno)
         if spec.unroll_max:
@@ -615,19 +626,23 @@ class Exec(Interp):
         choice = st.decide(2, "loop@%s" % node.lineno)
         # havoc
         mods = self.expand_modifies(spec.modifies)
-        for nm in mods:
-            self.havoc_harr(st, nm)
+        # the allocation pointer advances FIRST: the havocked arrays may hold references allocated by earlier iterations
+        # (their well-formedness bound is the new pointer)
         nref_new = st.fresh("nref", z3.IntSort())
         st.assume(nref_new >= st.nref)
         st.nref = nref_new
+        for nm in mods:
+            self.havoc_harr(st, nm)
         self.havoc_locals(st, node, spec)
         if is_for:
             i = st.fresh("it", z3.IntSort())
             st.assume(i >= 0)
             fr.env[idx] = SV(KInt, i)
         watch = {k: v for k, v in st.heap.items()}
+        n_facts_before = len(st.facts)
         for n_, inv in enumerate(spec.invariant):
             self.assume(st, self.spec_eval(st, inv, ctx))
+        self.vacuity_probe(st, n_facts_before, "head of the loop at line %s" % node.lineno, (fr.fi.key if fr.fi is not None else None, node.lineno, "loop", choice))
         if choice == 0:
             # one arbitrary iteration
             if is_for:
@@ -710,12 +725,15 @@ class Exec(Interp):
         if chosen is None:
             raise PathCut()
         # havoc the frame
+        n_facts_before = len(st.facts)
         mods = self.expand_modifies(c.modifies)
-        for nm in mods:
-            self.havoc_harr(st, nm)
+        # the allocation pointer advances FIRST: the callee may store references it allocated into the arrays it modifies
+        # (their well-formedness bound is the new pointer)
         nref_new = st.fresh("nref", z3.IntSort())
         st.assume(nref_new >= st.nref)
         st.nref = nref_new
+        for nm in mods:
+            self.havoc_harr(st, nm)
         # arrays first touched by this havoc had their initial value at call time
         for nm in st.heap:
             if nm not in ctx0.pre_heap and nm in st.heap0:
@@ -760,12 +778,41 @@ class Exec(Interp):
             self.assume(st, self.spec_eval(st, e, ctx, env, fi.module, fi))
         if not st.feasible():
             raise PathCut()
+        self.vacuity_probe(st, n_facts_before, "call of %s (case %s) at line %s" % (fi.qualname, chosen.name, line),
+                           (fi.key, line, chosen.name, raises))
         if raises is None and fi.qualname == "Study.get_trials":
             st.ghost["get_trials_result"] = res
         if raises is not None:
             cls = self.exc_class(raises, fi)
             raise PyRaise(PyExc(cls, where="contract %s/%s called at line %s" % (fi.qualname, chosen.name, line)))
         return res
+
+    def vacuity_probe(self, st, n_before, what, key):
+        """Vacuity guard: assuming a callee's postcondition (or a loop invariant) must not make a path refutable that was
+        not refutable before -- that would discharge everything after it for free.  Probed once per (call site, case) and
+        worker process with E-matching and a short budget; `unknown` counts as not refuted.  A hit is reported as a failed
+        checker failure of the function (status error), never as a property violation."""
+        if self.spec_mode or os.environ.get("PYVC_NO_VACUITY"):
+            return
+        probed = self.__dict__.setdefault("_vacuity_probed", set())
+        if key in probed:
+            return
+
+        def refutable(facts):
+            vs = z3.Solver()
+            vs.set("auto_config", False)
+            vs.set("mbqi", False)
+            vs.set("timeout", 1200)
+            for f in facts:
+                vs.add(f)
+            return vs.check() == z3.unsat
+        if not refutable(st.facts):
+            probed.add(key)
+            return
+        if refutable(st.facts[:n_before]):
+            return          # the path was already infeasible before this point: nothing learnt, probe again on another path
+        probed.add(key)
+        st.ghost.setdefault("vacuity_alarms", []).append("the facts assumed at the %s contradict the path (vacuous proof)" % what)
 
     def exc_class(self, name, fi=None):
         import builtins
